@@ -18,7 +18,7 @@ ASSUMPTIONS = ['statistical bounds are set at >= 7 sigma of the estimator (false
                '"rejects" means raises an exception instead of returning a frame']
 PLAN = {'quick': {'gen': 8}, 'thorough': {'gen': 16, 'tests': 1, 'docs': 1}}
 REQUIRED_BUCKETS = ['shot:poisson', 'shot:poisson-large', 'shot:poisson-mixed', 'shot:gaussian-bias', 'shot:reject-negative:bright-frame', 'dark:large-rate', 'dark:near-integer-rate', 'shot:gaussian', 'shot:reject-negative', 'shot:reject-huge', 'shot:reject-array',
-                    'read_noise', 'read_noise:small-frames', 'read_noise:cube', 'dark:nofpn', 'dark:fpn', 'rule07', 'psd:square', 'psd:nonsquare', 'cosmic', 'cosmic:long-side', 'fresh-process']
+                    'read_noise', 'read_noise:small-frames', 'read_noise:cube', 'dark:nofpn', 'dark:fpn', 'rule07', 'psd:square', 'psd:nonsquare', 'cosmic', 'cosmic:long-side', 'cosmic:very-long-strip', 'fresh-process']
 REQUIRED_ANCHORS = ['anchor:shot_noise', 'anchor:read_noise', 'anchor:dark_current', 'anchor:power_spectrum',
                     'anchor:_cosmic_ray', 'anchor:_nrays']
 REQUIRED_ORACLES = ['deterministic', 'seed-sensitive', 'global-rng-untouched', 'global-rng-independent', 'poisson:support',
@@ -336,6 +336,22 @@ def workload(ctx, lentil):
         except Exception as e:
             ctx.check(False, 'cosmic:wellformed', f'cosmic|raises={type(e).__name__}' + ('|long-side' if long else ''), f'cosmic_rays raised {type(e).__name__}: {e}',
                       {'state': state, 'shape': list(shape), 'px': list(px), 'ts': ts})
+    # ---- very long strips, one ray per frame: the pixel addresses of a track stay inside the frame (recorded witness state 17148 of the
+    # audit, plus fresh states) ---------------------------------------------------------------------------------------
+    if ctx.shard % 4 == 1:
+        shape_, px_ = (3, 500000), (5e-6, 5e-6, 50e-6)
+        ts_ = 1.5 / (shape_[0] * px_[0] * shape_[1] * px_[1] * 4e4)
+        for st in [17148] + [int(rng.integers(0, 2 ** 31)) for _ in range(ctx.count(10, 60))]:
+            ctx.case({'cosmic-state': st, 'shape': list(shape_), 'one-ray': True}, ['cosmic:very-long-strip'])
+            np.random.seed(st)
+            try:
+                with np.errstate(all='ignore'):
+                    f = np.asarray(D.cosmic_rays(shape_, px_, ts_), float)
+                ctx.check(f.shape == shape_ and bool(np.all(np.isfinite(f)) and np.all(f >= 0)), 'cosmic:wellformed', 'cosmic|frame|very-long-strip',
+                          'cosmic-ray frame does not have the requested shape / is negative or non-finite', {'state': st})
+            except Exception as e:
+                ctx.check(False, 'cosmic:wellformed', f'cosmic|raises={type(e).__name__}|very-long-strip', f'cosmic_rays raised {type(e).__name__}: {e}',
+                          {'state': st, 'shape': list(shape_)})
     # ---- history independence across processes: pairs of calls that differ in ONE argument are evaluated here in one order
     # and in a fresh interpreter in the opposite order; every result must be the same in both -----------------------------
     import os
